@@ -219,12 +219,22 @@ def lifted_points(ctx):
 
 def run(ctx):
     r = ctx.rng("keys")
-    ks = [1, 2, 3, 0xff, 2**31, 2**255, (N - 1) // 2, N - 2, N - 1] + [r.randrange(1, N) for _ in range(20 if ctx.thorough else 3)]
+    ks = [1, 2, 3, 122, 153, 0xff, 2**31, 2**255, (N - 1) // 2, N - 2, N - 1]   # 122: y has a leading zero byte, 153: x has one + [r.randrange(1, N) for _ in range(20 if ctx.thorough else 3)]
+    # keys whose witness-script hash / key hash starts with five zero bits (found by search with the reference)
+    found, k = [], 2
+    while len(found) < 2 and k < 4000:
+        pt = secp.pub(k)
+        if enc.sha256(hd.witness_script_1of1(pt))[0] < 8 or enc.hash160(secp.sec(pt))[0] < 8:
+            found.append(k)
+        k += 1
+    ks += found
     cases = [{"k": "point", "sec": secp.sec(secp.pub(k)).hex(), "scalar": "%x" % k} for k in ks]
     pts = lifted_points(ctx)
     cases += [{"k": "point", "sec": secp.sec(p).hex()} for p in (pts if ctx.thorough else pts[:10])]
     ctx.product("keys-x-networks-x-kinds", cases, execute, chunk=1)
     hs = [("00" * 20, "00" * 32), ("ff" * 20, "ff" * 32), ("00" * 19 + "01", "80" + "00" * 31)]
+    # leading zero BITS of the program (5-bit regrouping): first byte 00, 07 (five zero bits), 08, 0f
+    hs += [("%02x" % b + "%038x" % r.getrandbits(152), "%02x" % b + "%062x" % r.getrandbits(248)) for b in (0x00, 0x07, 0x08, 0x0f, 0x10)]
     hs += [("%040x" % r.getrandbits(160), "%064x" % r.getrandbits(256)) for _ in range(8 if ctx.thorough else 3)]
     ctx.product("script-templates-and-helpers", [{"k": "scripts", "h20": a, "h32": b} for a, b in hs], execute, parallel=False)
     cases = [{"k": "hash", "L": L, "pat": p, "salt": ctx.seed % 251} for L in range(0, 1025) for p in PATTERNS]
